@@ -450,7 +450,18 @@ def posassign(reps, op, version, st):
         if not oo.ok:
             return
         line = oo.value
-        a = core.call(line.set, field, x)
+        if isinstance(line, gfapy.line.CustomRecord) and op["vi"] % 2:
+            # through the accessor, for the second time (the fields of a custom record have no class-level accessor)
+            core.call(setattr, line, field, "first")
+            a = core.call(setattr, line, field, x)
+            if a.ok and op["valid"]:
+                r = core.call(line.get, field)
+                if not r.ok or r.value != x:
+                    raise core.Violation("assignment-lost", "level %d: %s.%s = %r (second assignment through the "
+                                         "accessor): get() answers %r" % (lvl, src.record_type, field, x,
+                                                                          r.value if r.ok else r.excname), dtype=field, level=lvl)
+        else:
+            a = core.call(line.set, field, x)
         st.count("oracle.surfacing")
         st.count("probe.valid_assignment" if op["valid"] else "probe.invalid_assignment")
         st.state(digest(["posassign", src.record_type, field, repr(x), lvl, a.ok]))
